@@ -15,12 +15,12 @@ DURATIONS = {  # text -> allowed?
 
 def model(durs, loop=False):
     lines = ["model M", "  constant Real c = 2.0;", "  parameter Real p = 3.0;", "  input Real u;", "  input Real uf(fixed = true);",
-             "  Real x;", "  Real a;"]
+             "  Real x;", "  Real a;", "  Real dd;", "  Real df;"]
     for i in range(len(durs)):
         lines.append("  Real y%d;" % i)
     if loop:
         lines.append("  Real v[2]; Real w[2];")
-    lines += ["equation", "  der(x) = -x + u + uf;", "  a = 2 * x;"]
+    lines += ["equation", "  der(x) = -x + u + uf;", "  a = 2 * x;", "  dd = u;", "  df = uf;"]
     for i, d in enumerate(durs):
         lines.append("  y%d = delay(x + %d, %s);" % (i, i, d))
     if loop:
@@ -66,7 +66,8 @@ def check_args(m, durs):
         if abs(got_e - want_e) > 1e-9:
             return "delay %d: expression value %r, expected x + %d = %r" % (i, got_e, i, want_e)
         try:
-            want_d = eval(d.replace("der(x)", "dx"), {}, dict(env, uf=env.get("uf", 0)))
+            want_d = eval(d.replace("der(x)", "dx"), {}, dict(env, uf=env.get("uf", 0), dd=env.get("dd", env.get("u", 0)), df=env.get("df", env.get("uf", 0)),
+                                                               c=env.get("c", 2.0), p=env.get("p", 3.0)))
         except Exception:
             continue
         got_d = float(np.array(res[2 * i + 1]).reshape(-1)[0])
@@ -87,10 +88,18 @@ def main():
               (["3600.0", "c", "u"], False, {}), (["p", "3600.0", "c"], False, {"replace_constant_values": True})]
     if tier != "quick":
         cases += [(list(t), False, {}) for t in itertools.product(list(DURATIONS)[::2], repeat=3)]
+    # compound durations whose symbols are replaced by a simplification step (the stored delay arguments must follow)
+    # df is an algebraic variable equal to the fixed input uf: a duration over it is allowed exactly when alias detection has replaced it
+    ALIASED = lambda o: bool(o.get("detect_aliases"))
+    EXTRA = {"2 * c": True, "c + p": True, "2 * dd": False, "dd + 1": False, "2 * df": ALIASED, "uf * df": ALIASED}
+    DURATIONS.update(EXTRA)
+    for o in ({"replace_constant_values": True}, {"detect_aliases": True}, {"replace_parameter_values": True, "replace_constant_values": True},
+              {"detect_aliases": True, "replace_constant_values": True, "expand_mx": True}):
+        cases += [([d], False, o) for d in EXTRA] + [(["2 * c", "2 * df"], False, o), (["p", "dd + 1"], False, o)]
     for durs, loop, opts in cases:
         n += 1
         txt, (verdict, info), m = run(durs, loop, opts)
-        should_accept = all(DURATIONS[d] for d in durs)
+        should_accept = all((DURATIONS[d](opts) if callable(DURATIONS[d]) else DURATIONS[d]) for d in durs)
         bad = None
         if verdict == "error":
             bad = info
@@ -99,7 +108,10 @@ def main():
         elif not should_accept and verdict != "rejected":
             bad = "accepted"
         elif verdict == "accepted" and not loop:
-            bad = check_args(m, durs)
+            try:
+                bad = check_args(m, durs)
+            except BaseException as e:  # noqa
+                bad = "delay_arguments_function cannot be built/evaluated with options %s: %s: %s" % (opts, type(e).__name__, str(e).replace("\n", " ")[-220:])
         if bad:
             failures.append({"class": "delay", "input": txt, "observed": bad,
                              "expected": ("accepted with delay arguments [expr, duration]..." if should_accept else "rejected with ValueError")})
@@ -107,7 +119,7 @@ def main():
                 break
     if payload.get("mode") == "bounded":
         print(json.dumps({"performed": True, "cases": n, "distinct_nontrivial": n, "failures": failures,
-                          "rule": "delay durations drawn from each category (literal, constant, parameter, fixed input | time, state, derivative, algebraic, non-fixed input, mixtures), one to three delays in both orders, inside and outside a for-loop, with replace_constant_values: the real transfer_model must reject exactly the disallowed ones; for accepted models delay_arguments_function is evaluated at a random point",
+                          "rule": "delay durations drawn from each category (literal, constant, parameter, fixed input | time, state, derivative, algebraic, non-fixed input, mixtures), one to three delays in both orders, inside and outside a for-loop, with replace_constant_values, and compound durations over constants / aliased inputs under replace_*_values and detect_aliases: the real transfer_model must reject exactly the disallowed ones; for accepted models delay_arguments_function is evaluated at a random point",
                           "bound": "%d models" % n}))
     else:
         f = failures[0] if failures else None
